@@ -38,6 +38,8 @@ class CPreProcessor:
         self.files = []  # Stack of included files.
         self.counter = 0  # For the __COUNTER__ macro
         self._int_type = types.BasicType(types.BasicType.INT)
+        # In #if expressions, this type stands for uintmax_t:
+        self._uint_type = types.BasicType(types.BasicType.UINT)
 
         self.predefine_builtin_macros()
 
@@ -1021,9 +1023,12 @@ class CPreProcessor:
                 lhs = 0
             lhs = expressions.NumericLiteral(lhs, self._int_type, token.loc)
         elif token.typ == "NUMBER":
-            lhs, _ = cnum(token.val)
-            # TODO: check type specifier?
-            lhs = expressions.NumericLiteral(lhs, self._int_type, token.loc)
+            lhs, specifiers = cnum(token.val)
+            if "unsigned" in specifiers or lhs > self.INTMAX_MAX:
+                typ = self._uint_type
+            else:
+                typ = self._int_type
+            lhs = expressions.NumericLiteral(lhs, typ, token.loc)
         elif token.typ == "CHAR":
             lhs, _ = charval(replace_escape_codes(token.val))
             # TODO: check type specifier?
@@ -1088,8 +1093,45 @@ class CPreProcessor:
         else:
             return False
 
+    INTMAX_MAX = 2**63 - 1
+
     def _eval_tree(self, expr):
-        """Evaluate a parsed tree"""
+        """Evaluate a parsed tree.
+
+        All signed operands have type intmax_t and all unsigned operands
+        have type uintmax_t (C99 6.10.1), here both 64 bits.
+        """
+        return self._eval_typed(expr)[0]
+
+    def _is_unsigned(self, expr):
+        """Determine if the (sub)expression has type uintmax_t"""
+        if isinstance(expr, expressions.NumericLiteral):
+            return expr.typ is self._uint_type
+        elif isinstance(expr, expressions.UnaryOperator):
+            return expr.op != "!" and self._is_unsigned(expr.a)
+        elif isinstance(expr, expressions.BinaryOperator):
+            if expr.op in ["<<", ">>"]:
+                return self._is_unsigned(expr.a)
+            elif expr.op in ["*", "/", "%", "+", "-", "&", "^", "|"]:
+                return self._is_unsigned(expr.a) or self._is_unsigned(expr.b)
+            else:
+                return False
+        elif isinstance(expr, expressions.TernaryOperator):
+            return self._is_unsigned(expr.b) or self._is_unsigned(expr.c)
+        else:  # pragma: no cover
+            raise NotImplementedError(str(expr))
+
+    @staticmethod
+    def _to_intmax(value, unsigned):
+        """Reduce value to the range of uintmax_t or intmax_t"""
+        value &= 2**64 - 1
+        if not unsigned and value >= 2**63:
+            value -= 2**64
+        return value
+
+    def _eval_typed(self, expr):
+        """Evaluate a parsed tree into a (value, is unsigned) pair"""
+        unsigned = self._is_unsigned(expr)
         if isinstance(expr, expressions.NumericLiteral):
             value = expr.value
         elif isinstance(expr, expressions.UnaryOperator):
@@ -1116,8 +1158,27 @@ class CPreProcessor:
                     value = self._eval_tree(expr.b)
                 value = int(bool(value))
             else:
-                func = self.OP_MAP[expr.op][2]
-                value = func(self._eval_tree(expr.a), self._eval_tree(expr.b))
+                a = self._eval_tree(expr.a)
+                b = self._eval_tree(expr.b)
+                if expr.op not in ["<<", ">>"]:
+                    # Usual arithmetic conversions:
+                    common = self._is_unsigned(expr.a) or self._is_unsigned(
+                        expr.b
+                    )
+                    a = self._to_intmax(a, common)
+                    b = self._to_intmax(b, common)
+                if expr.op in ["/", "%"]:
+                    if b == 0:
+                        self.error("Division by zero in #if", loc=expr.location)
+                    # C division truncates towards zero:
+                    value = abs(a) // abs(b)
+                    if (a < 0) != (b < 0):
+                        value = -value
+                    if expr.op == "%":
+                        value = a - value * b
+                else:
+                    func = self.OP_MAP[expr.op][2]
+                    value = func(a, b)
         elif isinstance(expr, expressions.TernaryOperator):
             value = self._eval_tree(expr.a)
             if value:
@@ -1126,7 +1187,7 @@ class CPreProcessor:
                 value = self._eval_tree(expr.c)
         else:  # pragma: no cover
             raise NotImplementedError(str(expr))
-        return value
+        return self._to_intmax(value, unsigned), unsigned
 
 
 class FileExpander:
